@@ -6,6 +6,7 @@ Line-protocol driver for M-Run / M-Decider (`bobodrv decider`).
 configuration (each answers `ok`):
   reset
   cache <n>                         max_cache
+  idprefix <p>                      run ids are <p>0, <p>1, … (default r)
   phen <name>                       start a phenomenon
   pat <name> <0|1>                  start a pattern (singleton flag) in the current phenomenon
   pre <pred>      | halt <pred>     add a precondition or haltcondition to the current pattern
@@ -96,9 +97,10 @@ def showNotif (n : Notif Ev) : String :=
 structure DS where
   phens  : List (Phen Ev) := []       -- being built, reversed order NOT used: appended
   cache  : Nat := 0
+  pfx    : String := "r"
   st     : DState Ev := {}
 
-def DS.cfg (d : DS) : Cfg Ev := { phenomena := d.phens, maxCache := d.cache, idOf := fun n => s!"r{n}" }
+def DS.cfg (d : DS) : Cfg Ev := { phenomena := d.phens, maxCache := d.cache, idOf := fun n => s!"{d.pfx}{n}" }
 
 def modLastPhen (d : DS) (f : Phen Ev → Phen Ev) : Option DS :=
   match d.phens.reverse with
@@ -146,6 +148,7 @@ def step (d : DS) (line : String) : DS × String :=
   match words line with
   | ["reset"] => ({}, "ok")
   | ["cache", n] => orBad d (n.toNat?.map (fun n => { d with cache := n }))
+  | ["idprefix", p] => ({ d with pfx := p }, "ok")
   | ["phen", name] => ({ d with phens := d.phens ++ [{ name := name, patterns := [] }] }, "ok")
   | ["pat", name, sg] =>
     if sg == "0" || sg == "1" then
